@@ -424,13 +424,15 @@ class Runner(object):
         self.reconnect()
 
     def wire(self, msg):
+        """UPDATE octets from yabgp's own encoders.  Update.construct drops the withdrawn routes of a message
+        that also has attributes (C06 finding), so the three fields are encoded separately and spliced."""
+        import struct
         from yabgp.message.update import Update
-        m = {'attr': msg['attr']}
-        if msg['nlri']:
-            m['nlri'] = msg['nlri']
-        if msg['withdraw']:
-            m['withdraw'] = msg['withdraw']
-        return Update().construct(m, True, False)
+        wd = Update.construct_prefix_v4(msg['withdraw'], False) if msg['withdraw'] else b''
+        at = Update.construct_attributes(msg['attr'], True) if msg['attr'] else b''
+        nl = Update.construct_prefix_v4(msg['nlri'], False) if msg['nlri'] else b''
+        body = struct.pack('!H', len(wd)) + wd + struct.pack('!H', len(at)) + at + nl
+        return Update.construct_header(body)
 
     def run(self, events, mode='direct'):
         """mode 'direct': sends through the two protocol methods; 'flask': through the REST view.
@@ -450,8 +452,8 @@ class Runner(object):
                 data = self.wire(e[1])
                 parsed = Update().parse(None, data[19:], True, {})
                 msg = {'attr': parsed['attr'], 'nlri': parsed['nlri'], 'withdraw': parsed['withdraw']}
-                if parsed['sub_error']:
-                    raise AssertionError('generator produced an UPDATE with sub_error %r' % (e,))
+                if parsed['sub_error'] or parsed['nlri'] != e[1]['nlri'] or parsed['withdraw'] != e[1]['withdraw']:
+                    raise AssertionError('generator: the UPDATE does not carry the intended routes %r' % (e,))
                 before = {f: self.abs_mp('recv', getattr(p, t)) for f, t in
                           (('flowspec', 'flowspec_receive_dict'), ('mpls_vpn', 'mpls_vpn_receive_dict'))}
                 vbefore = dict(p.receive_version)
